@@ -50,6 +50,15 @@ struct NetSpec {
   float weight = 1.0f;
 };
 
+struct CircuitSpec;
+/// Object-history mode (see HistoryScope below): when the word is 1 (mod 4), CircuitSpec::build()
+/// returns a circuit with the same contents reached through an object history.
+inline uint32_t &historyWord() {
+  static thread_local uint32_t w = 0;
+  return w;
+}
+inline coloquinte::Circuit buildThroughHistory(const CircuitSpec &s, uint32_t word);
+
 struct CircuitSpec {
   int rowHeight = 1;
   int scale = 0;
@@ -68,6 +77,11 @@ struct CircuitSpec {
   long long placedH(const CellSpec &c) const { return refIsTurn((CellOrientation)c.orient) ? c.w : c.h; }
 
   Circuit build() const {
+    uint32_t hw = historyWord();
+    if (hw % 4 == 1) return buildThroughHistory(*this, hw);
+    return buildFresh();
+  }
+  Circuit buildFresh() const {
     int n = cells.size();
     Circuit c(n);
     std::vector<int> w(n), h(n), x(n), y(n);
@@ -684,7 +698,7 @@ inline coloquinte::Circuit buildWithHistory(const CircuitSpec &s, uint32_t word,
       c.y += ((int)(w.next() % 5) - 2) * s.rowHeight;
       if (w.next() % 3 == 0) c.orient = (int)(w.next() % 8);
     }
-  Circuit c = v.build();
+  Circuit c = v.buildFresh();
   try {
     prime(c);
   } catch (const std::exception &) {
@@ -703,8 +717,28 @@ inline coloquinte::Circuit buildWithHistory(const CircuitSpec &s, uint32_t word,
     c.setCellY(ys);
     c.setCellOrientation(os);
   }
+  c.hasCellSizeUpdate_ = false;
+  c.hasNetUpdate_ = false;
   return c;
 }
+inline coloquinte::Circuit buildThroughHistory(const CircuitSpec &s, uint32_t word) {
+  return buildWithHistory(s, word, [](coloquinte::Circuit &c) {
+    (void)c.computeRows();
+    (void)c.hpwl();
+    c.legalize(coloquinte::ColoquinteParameters(1));
+  });
+}
+/// For the duration of one case every CircuitSpec::build() goes through an object history when
+/// the LAST word of the tape is 1 (mod 4).  The contents of the circuits are unchanged, so a case
+/// keeps its meaning; only hidden per-object state (memoised values) can make a difference.
+struct HistoryScope {
+  HistoryScope(const Tape &t, Report &R) {
+    uint32_t w = t.w.empty() ? 0 : t.w.back();
+    historyWord() = w;
+    if (w % 4 == 1) R.classify("build:through-object-history");
+  }
+  ~HistoryScope() { historyWord() = 0; }
+};
 
 // ---------------------------------------------------------------------------
 // Literal encoding of a (net-less) spec, used by the small-scope enumerators to
